@@ -16,7 +16,9 @@ PROPERTY = "C04"
 LEVEL = "fault_enumeration"
 RULE = (
     "Per tool / aggregation Hypothesis draws an input, source flavours (async generator, class with "
-    "aclose, class whose __anext__ returns a plain awaitable, class without aclose), whether source "
+    "aclose, class whose __anext__ returns a plain awaitable, class without aclose, class behind a delegating proxy "
+    "whose aclose is only reachable through __getattr__, re-iterable async iterable whose every __aiter__ opens a "
+    "cursor of its own; optionally sources with value equality: distinct sources compare equal), whether source "
     "cleanup suspends, and the loop mode (asyncgen hooks like a real loop / none). The case is then "
     "expanded exhaustively: EVERY number of items taken before closing (0..exhaustion+1), running to "
     "exhaustion, EVERY single fault position of every source and callable, and a consumer athrow after "
